@@ -38,7 +38,7 @@ theorem phase_sync (cfg : Cfg) (s : St) (hj : s.jpc = .sync) (hs : s.stopping = 
 /-- waiting for the join reply: a successful (non-leader) reply leads to the sync request -/
 theorem phase_join (cfg : Cfg) (s : St) (hj : s.jpc = .join) (hs : s.stopping = false) :
     (step cfg s (.joinDone (.ok 1 1 false 0))).1.jpc = .sync ∧ Keep s (step cfg s (.joinDone (.ok 1 1 false 0))).1 := by
-  refine ⟨?_, ?_, ?_⟩ <;> simp [step, hj, hs]
+  refine ⟨?_, ?_, ?_⟩ <;> simp [step, hj, hs, abandonHb_eq, andThen]
 
 /-- the leader's partition load: a successful reply leads to the sync request -/
 theorem phase_parts (cfg : Cfg) (s : St) (n : Nat) (hj : s.jpc = .loadParts n) (hs : s.stopping = false) :
